@@ -408,7 +408,7 @@ def analyse(rep: Report) -> None:
     rep.rule('R09.1', 'patch template addresses what the manifest template emits', floor=9)
     rep.rule('R09.2', 'patch is rendered under the option vector of the manifest', floor=4)
     rep.rule('R09.3', 'originalPublishTime and patch capability agree between the two endpoints', floor=5)
-    rep.rule('R09.4', 'loop wrap re-establishes (mod_segment = 1, seg_start_tc = origin_time)', floor=2)
+    rep.rule('R09.4', 'loop wrap re-establishes (mod_segment = 1, seg_start_tc = origin_time)', floor=1)
     idx = Index(rep.repo)
     r09_1(rep)
     r09_2(rep, idx)
